@@ -17,6 +17,7 @@ theorem eprStep_ok {cfg : Cfg} {c c' : CState} {sub a : Nat} {pc pc' : Int} {ei 
     pc' = pc + 1 ∧ (c' = c ∨ ∃ κ res q n, c' = enqueue c κ sub res q n) := by
   cases ei with
   | base i => simp [eprStep] at h
+  | measBasis q cr i0 i1 i2 i3 => simp [eprStep] at h
   | createEpr r0 r1 r2 r3 r4 =>
     simp only [eprStep] at h
     split at h
@@ -286,5 +287,71 @@ theorem book_induct {cfg : Cfg} {node : Int} (P : Book → Prop)
     | poll =>
       simp only [Ctl.apply, handlePending] at hs
       exact hfuel _ _ _ ih hs
+
+end NQ.Ctl
+
+namespace NQ.Ctl
+open NQ NQ.Exec
+
+/-- a successful pass of the pending loop: some response was handled and popped -/
+theorem scan_did {cfg : Cfg} {c c'' : CState} : ∀ (l pre : List Epr.Resp), scan cfg c pre l = .did c'' →
+    ∃ pre' r rest c', l = pre' ++ r :: rest ∧ tryHandle cfg c r = .yes c' ∧
+      c'' = { c' with book := { c'.book with pending := pre ++ pre' ++ rest } } := by
+  intro l
+  induction l with
+  | nil => intro pre h; simp [scan] at h
+  | cons r rest ih =>
+    intro pre h
+    unfold scan at h
+    split at h
+    · cases h
+    · obtain ⟨pre', r', rest', c', hl, hy, hc⟩ := ih (pre ++ [r]) h
+      exact ⟨r :: pre', r', rest', c', by simp [hl], hy, by simpa using hc⟩
+    · rename_i c' hy
+      injection h with h
+      exact ⟨[], r, rest, c', rfl, hy, by simpa using h.symm⟩
+
+/-- `Exec.keepResp` takes at most the delivered qubit out of the reserved set -/
+theorem keepResp_reserved (s : Exec.State) (a : Nat) (v : Int) (p q : Nat) (hq : q ∈ s.reserved) (hne : q ≠ p) :
+    q ∈ (Exec.keepResp s a v p).1.reserved := by
+  unfold Exec.keepResp
+  split
+  · exact hq
+  · dsimp only
+    split
+    · exact hq
+    · split
+      · exact hq
+      · split
+        · exact hq
+        · split
+          · exact hq
+          · simp only [List.mem_filter, bne_iff_ne, ne_eq]
+            exact ⟨hq, hne⟩
+
+/-- a unit-module position is recorded in the history only for keep responses -/
+theorem vq_some_is_keep {okf : Nat} {e e' : Epr.State} {r : Epr.Resp} {ev : Epr.Event} {pos : Nat}
+    (hc : Epr.Consumed okf e r e') (hev : e'.log.getLast? = some ev) (hvq : ev.vq = some pos) : r.ty = .K := by
+  obtain ⟨hd2, rest2, app2, m2, m1, used1, vq, prev, arr, arr2, _, _, _, _, hM, _, hO, _, _, hs⟩ := hc.ex
+  subst hs
+  simp only [List.getLast?_append, List.getLast?_singleton, Option.some_or, Option.some.injEq] at hev
+  subst hev
+  cases hty' : r.ty with
+  | K => rfl
+  | M => have := (hM hty').2.2.1; simp only at hvq; rw [this] at hvq; cases hvq
+  | other => exact absurd hty' hO
+
+/-- the reserved set after a consumption: only the qubit of a consumed keep response leaves it -/
+theorem tryHandle_yes_reserved {cfg : Cfg} {c c' : CState} {r : Epr.Resp} (h : tryHandle cfg c r = .yes c')
+    (q : Nat) (hq : q ∈ c.s.reserved) (hne : r.ty = .K → q ≠ r.phys.toNat) : q ∈ c'.s.reserved := by
+  obtain ⟨hd, rest, app, ap, e', arr', ev, s1, ap1, _, _, _, _, hty, hev, hs1, _, hc'⟩ := tryHandle_yes h
+  rw [hc']
+  show q ∈ s1.reserved
+  rw [hs1]
+  cases hvq : ev.vq with
+  | none => exact hq
+  | some pos =>
+    simp only
+    exact keepResp_reserved c.s app pos r.phys.toNat q hq (hne (vq_some_is_keep (Epr.tryHandle_yes hty) hev hvq))
 
 end NQ.Ctl
